@@ -7,7 +7,10 @@
 //  sc=4 two readers on one socket      sc=5 reader and writer blocked on the same descriptor
 //  sc=6 two acceptors, two connections sc=7 reader blocked while another fiber closes the descriptor
 //  sc=8 a descriptor number is reused by another fiber while close() of the old one is still in progress
+//  sc=9 pipe: reader blocked on an empty pipe whose last writer goes away (readiness = hang-up only) -> 0
+//  sc=10 pipe: writer blocked on a full pipe whose last reader goes away (readiness = error only) -> EPIPE
 #include <errno.h>
+#include <signal.h>
 #include <fcntl.h>
 #include <limits.h>
 #include <sys/ioctl.h>
@@ -49,7 +52,7 @@ static long do_call(int which, int fd, int raw) {
   struct sockaddr_un sa = {AF_UNIX, "/nonexistent/x"};
   socklen_t sl = sizeof sa;
   int on = 1, cnt = 0;
-  errno = 0;
+  rt_set_errno(0);
   switch (which) {
     case 0: return raw ? syscall(SYS_read, fd, buf, 4) : read(fd, buf, 4);
     case 1: return raw ? syscall(SYS_readv, fd, &iov, 1) : readv(fd, &iov, 1);
@@ -82,9 +85,9 @@ static void grid1(void) {
     close(sv[0]);
   }
   long want = do_call(ci, fd, 1);
-  int want_errno = errno;
+  int want_errno = rt_errno();
   long got = do_call(ci, fd, 0);
-  int got_errno = errno;
+  int got_errno = rt_errno();
   if (want >= 0) return;  // the raw call itself accepts this (cannot happen for these descriptors)
   if (got >= 0) fmc_fail("io: %s on invalid descriptor %d returned %ld (success); the plain call fails with errno %d", callname[ci], fd, got, want_errno);
   if (got_errno != want_errno) fmc_fail("io: %s on invalid descriptor %d failed with errno %d; the plain call fails with errno %d", callname[ci], fd, got_errno, want_errno);
@@ -128,7 +131,7 @@ static void* m_caller(void* p) {
   int t = fmc_tid();
   long sw = fmc_thread_switches(t);
   long r;
-  errno = 0;
+  rt_set_errno(0);
   switch (m_op) {
     case 0: r = m_mode == 4 ? recv(m_sv[0], buf, 8, flags) : read(m_sv[0], buf, 8); break;
     case 1: r = recv(m_sv[0], buf, 8, flags); break;
@@ -136,7 +139,7 @@ static void* m_caller(void* p) {
     case 3: r = send(m_sv[0], buf, 8, flags); break;
     default: r = accept(m_listen, 0, 0); break;
   }
-  int e = errno;
+  int e = rt_errno();
   int switched = fmc_tid() != t || fmc_thread_switches(fmc_tid()) != sw;
   set_result(r, e, switched);
   return 0;
@@ -150,7 +153,7 @@ static void grid2(void) {
   if (m_op == 4) {
     m_listen = socket(AF_UNIX, SOCK_STREAM, 0);
     snprintf(sa.sun_path + 1, sizeof sa.sun_path - 1, "fmc-io-%d-%d", (int)getpid(), m_mode);
-    if (m_listen < 0 || bind(m_listen, (struct sockaddr*)&sa, sizeof(sa.sun_family) + 1 + strlen(sa.sun_path + 1)) || listen(m_listen, 4)) fmc_fail("io harness: listen failed (errno %d)", errno);
+    if (m_listen < 0 || bind(m_listen, (struct sockaddr*)&sa, sizeof(sa.sun_family) + 1 + strlen(sa.sun_path + 1)) || listen(m_listen, 4)) fmc_fail("io harness: listen failed (errno %d)", rt_errno());
     target = m_listen;
   } else {
     mk_pair(m_sv);
@@ -177,7 +180,7 @@ static void grid2(void) {
     else if (m_op <= 3) drain_raw(m_sv[1]);
     else {
       cfd = syscall(SYS_socket, AF_UNIX, SOCK_STREAM, 0);
-      if (syscall(SYS_connect, cfd, &sa, sizeof(sa.sun_family) + 1 + strlen(sa.sun_path + 1))) fmc_fail("io harness: peer connect failed errno %d", errno);
+      if (syscall(SYS_connect, cfd, &sa, sizeof(sa.sun_family) + 1 + strlen(sa.sun_path + 1))) fmc_fail("io harness: peer connect failed errno %d", rt_errno());
     }
     for (int i = 0; i < 50 && !result_ready(); i++) { rt_force_balance(); fiber_yield(); }
     if (!result_ready()) fmc_fail("io: mode %d op %d: blocked caller was not resumed after the descriptor became ready", m_mode, m_op);
@@ -208,7 +211,7 @@ static void* t_writer(void* p) {
     int off = 0;
     while (off < len) {
       ssize_t n = (c & 1) ? send(t_sv[0], out + off, len - off, 0) : write(t_sv[0], out + off, len - off);
-      if (n < 0) fmc_fail("io: blocking write failed with errno %d after %ld bytes", errno, pos + off);
+      if (n < 0) fmc_fail("io: blocking write failed with errno %d after %ld bytes", rt_errno(), pos + off);
       if (n == 0 || n > len - off) fmc_fail("io: write of %d bytes returned %zd", len - off, n);
       off += n;
       wrote(n);
@@ -223,7 +226,7 @@ static void* t_reader(void* p) {
   int k = 0;
   while (pos < t_total) {
     ssize_t n = (k++ & 1) ? recv(t_sv[1], in, t_bufsz, 0) : read(t_sv[1], in, t_bufsz);
-    if (n < 0) fmc_fail("io: blocking read failed with errno %d at stream position %ld", errno, pos);
+    if (n < 0) fmc_fail("io: blocking read failed with errno %d at stream position %ld", rt_errno(), pos);
     if (n == 0) fmc_fail("io: read returned 0 (end of file) at position %ld although the peer has not closed", pos);
     if (n > t_bufsz) fmc_fail("io: read returned more than the buffer size");
     if (pos + n > written()) fmc_fail("io: read returned bytes that were never written");
@@ -262,7 +265,7 @@ static void* one_reader(void* p) {
   int id = (int)(intptr_t)p;
   unsigned char b = 0;
   ssize_t n = read(s_sv[1], &b, 1);
-  if (n != 1) fmc_fail("io: reader %d: blocking read returned %zd errno %d", id, n, errno);
+  if (n != 1) fmc_fail("io: reader %d: blocking read returned %zd errno %d", id, n, rt_errno());
   got_byte(id, b);
   return 0;
 }
@@ -276,23 +279,23 @@ static void* blocked_writer(void* p) {
   char buf[2048];
   memset(buf, 'w', sizeof buf);
   ssize_t n = write(s_sv[1], buf, sizeof buf);  // the peer's receive side is full: blocks for POLLOUT on s_sv[1]
-  if (n < 1) fmc_fail("io: blocked writer: write returned %zd errno %d", n, errno);
+  if (n < 1) fmc_fail("io: blocked writer: write returned %zd errno %d", n, rt_errno());
   return 0;
 }
 static void* acceptor(void* p) {
   int id = (int)(intptr_t)p;
   int fd = accept(s_listen, 0, 0);
-  if (fd < 0) fmc_fail("io: acceptor %d: accept on a blocking descriptor failed with errno %d%s", id, errno, (errno == EAGAIN || errno == EWOULDBLOCK) ? " (EAGAIN must never reach a blocking caller)" : "");
+  if (fd < 0) fmc_fail("io: acceptor %d: accept on a blocking descriptor failed with errno %d%s", id, rt_errno(), (rt_errno() == EAGAIN || rt_errno() == EWOULDBLOCK) ? " (EAGAIN must never reach a blocking caller)" : "");
   got_byte(id, fd);
   accepted_one();
   return 0;
 }
 static void* closing_reader(void* p) {
   unsigned char b;
-  errno = 0;
+  rt_set_errno(0);
   ssize_t n = read(s_sv[1], &b, 1);
   if (n > 0) fmc_fail("io: read on a descriptor closed by another fiber returned data");
-  got_byte(0, n == 0 ? 1000 : errno);
+  got_byte(0, n == 0 ? 1000 : rt_errno());
   return 0;
 }
 static int r_sv[2], r_about;
@@ -309,10 +312,28 @@ static void* reuser(void* p) {
   r_set_about();
   fiber_yield();  // anything may happen between creating a socket and first using it
   unsigned char b = 0;
-  errno = 0;
+  rt_set_errno(0);
   ssize_t n = read(r_sv[0], &b, 1);
-  if (n != 1 || b != 'R') fmc_fail("io: blocking read on a freshly created socket returned %zd errno %d%s", n, errno, (errno == EAGAIN || errno == EWOULDBLOCK) ? " (EAGAIN must never reach a blocking caller)" : "");
+  if (n != 1 || b != 'R') fmc_fail("io: blocking read on a freshly created socket returned %zd errno %d%s", n, rt_errno(), (rt_errno() == EAGAIN || rt_errno() == EWOULDBLOCK) ? " (EAGAIN must never reach a blocking caller)" : "");
   got_byte(0, b);
+  return 0;
+}
+static int p_fd[2];
+static void* eof_reader(void* p) {
+  unsigned char b;
+  rt_set_errno(0);
+  ssize_t n = read(p_fd[0], &b, 1);
+  if (n != 0) fmc_fail("io: read on a pipe whose only writer was closed returned %zd errno %d (expected 0: end of file)", n, rt_errno());
+  got_byte(0, 1000);
+  return 0;
+}
+static void* epipe_writer(void* p) {
+  char buf[512];
+  memset(buf, 'p', sizeof buf);
+  rt_set_errno(0);
+  ssize_t n = write(p_fd[1], buf, sizeof buf);  // the pipe is full: blocks until it can write or the reader is gone
+  if (!(n == -1 && rt_errno() == EPIPE)) fmc_fail("io: write on a full pipe whose only reader was closed returned %zd errno %d (expected -1/EPIPE)", n, rt_errno());
+  got_byte(0, 1000);
   return 0;
 }
 static void multi(void) {
@@ -348,12 +369,28 @@ static void multi(void) {
     fmc_yield();
     for (int k = 0; k < 2; k++) {
       int c = syscall(SYS_socket, AF_UNIX, SOCK_STREAM, 0);
-      if (syscall(SYS_connect, c, &s_sa, sl)) fmc_fail("io harness: connect failed errno %d", errno);
+      if (syscall(SYS_connect, c, &s_sa, sl)) fmc_fail("io harness: connect failed errno %d", rt_errno());
       // the second connection is only made once the first has been accepted: both
       // acceptors are woken by the first one and only one of them can get it
       for (int i = 0; i < 200 && accepted() <= k; i++) { rt_force_balance(); fiber_yield(); }
       if (accepted() <= k) fmc_fail("io: a pending connection was not accepted by either blocked acceptor");
     }
+  } else if (sc == 9 || sc == 10) {
+    signal(SIGPIPE, SIG_IGN);
+    if (pipe(p_fd)) fmc_fail("io harness: pipe failed");
+    if (sc == 10) {
+      char buf[4096];
+      memset(buf, 'f', sizeof buf);
+      while (syscall(SYS_write, p_fd[1], buf, sizeof buf) > 0) {}  // the shim made the pipe non-blocking: fill it
+    }
+    f[nf++] = fiber_create(STK, sc == 9 ? eof_reader : epipe_writer, 0);
+    fiber_yield();
+    fmc_yield();
+    // the other end goes away behind the library's back (another process closing its end): the
+    // only readiness the kernel reports to the poller is EPOLLHUP / EPOLLERR
+    syscall(SYS_close, p_fd[sc == 9 ? 1 : 0]);
+    for (int i = 0; i < 200 && !got0(); i++) { rt_force_balance(); fiber_yield(); }
+    if (!got0()) fmc_fail("io: a fiber blocked on a pipe was not resumed when the other end was closed (hang-up / error readiness)");
   } else if (sc == 8) {
     mk_pair(s_sv);
     f[nf++] = fiber_create(STK, closer, 0);
